@@ -246,3 +246,55 @@ func H_C15_docx_package_markdown() {
 	}
 	vReach("end")
 }
+
+// H_C16_docx_block_content_controls: paragraphs and tables wrapped in a block-level content control (w:sdt - what Word
+// writes for a table of contents, a cover page, any rich-text control) are body content in their place.
+//
+//symgo:harness prop=C16 kernel=K5c-docx-block-sdt noreplay=1
+//symgo:redirect archive/zip.OpenReader vStubOpenZip
+//symgo:desc zip layer cut (member content model); body = paragraph "before", then 1..2 elements each either a plain paragraph, a w:sdt holding one paragraph, a w:sdt holding two paragraphs, or a w:sdt holding a 1x2 table (enumerated), then paragraph "after": Open succeeds; Text() contains every text once, in source order
+func H_C16_docx_block_content_controls() {
+	para := func(t string) string { return `<w:p><w:r><w:t>` + t + `</w:t></w:r></w:p>` }
+	sdt := func(inner string) string {
+		return `<w:sdt><w:sdtPr><w:id w:val="7"/><w:docPartObj><w:docPartGallery w:val="Table of Contents"/></w:docPartObj></w:sdtPr><w:sdtContent>` + inner + `</w:sdtContent></w:sdt>`
+	}
+	body := para("before")
+	want := []string{"before"}
+	for i, n := 0, vAnyIntIn(1, 2); i < n; i++ {
+		w := "el" + string(rune('A'+i))
+		switch vAnyIntIn(0, 3) {
+		case 0:
+			body += para(w)
+			want = append(want, w)
+		case 1:
+			body += sdt(para(w))
+			want = append(want, w)
+		case 2:
+			body += sdt(para(w+"1") + para(w+"2"))
+			want = append(want, w+"1", w+"2")
+		default:
+			body += sdt(`<w:tbl><w:tblGrid><w:gridCol w:w="100"/><w:gridCol w:w="100"/></w:tblGrid><w:tr><w:tc><w:p><w:r><w:t>` + w + `x</w:t></w:r></w:p></w:tc><w:tc><w:p><w:r><w:t>` + w + `y</w:t></w:r></w:p></w:tc></w:tr></w:tbl>`)
+			want = append(want, w+"x", w+"y")
+		}
+	}
+	body += para("after")
+	want = append(want, "after")
+	vZip = &zip.ReadCloser{}
+	vMember("[Content_Types].xml", `<?xml version="1.0"?><Types xmlns="http://schemas.openxmlformats.org/package/2006/content-types"/>`)
+	vMember("word/document.xml", `<?xml version="1.0"?><w:document `+vWNS+`><w:body>`+body+`<w:sectPr/></w:body></w:document>`)
+	vMember("word/styles.xml", vStylesXML)
+	r, err := Open("any.docx")
+	vAssert("opens", err == nil && r != nil)
+	txt, terr := r.Text()
+	vAssert("text-no-error", terr == nil)
+	pos := 0
+	for _, w := range want {
+		vAssert("every-text-exactly-once", strings.Count(txt, w) == 1)
+		k := strings.Index(txt[pos:], w)
+		vAssert("body-texts-in-document-order", k >= 0)
+		if k >= 0 {
+			pos += k + len(w)
+		}
+	}
+	vReach("end")
+}
